@@ -1153,8 +1153,8 @@ PROPS['C05'].update(
     explanation='Decisions of fix that protect against writing wrong data, each on the real cmdline/check.c: blockcmp accepts a block iff the digest of its valid part equals the recorded hash over BLOCK_HASH_SIZE bytes and the padding is zero, with the previous hash kind exactly during a migration; is_hash_matching accepts iff at least one failed block is checkable and none mismatches; repair_step returns success ONLY after a reconstruction validated by hash (when a failed block has an up-to-date hash) or by a spare parity, tries every combination of readable parities exactly once, and returns -1 iff no attempt is possible; the region of repair() that classifies rebuilt pending (CHG) blocks marks them out-of-date (-> .unrecoverable, never "recovered") unless the rebuilt block OF THAT ENTRY provably is the new version (unknown past hash / zero past hash and all-zero block / past hash equal to the rebuilt block).',
     trusted_base=['memhash by contract (arbitrary digest)', 'raid_data / raid_gen / file_block_size by recording contracts (dfcc replace)', 'region extraction of repair()'],
     assumptions=['bounded: <= 3 failed blocks per stripe (repair_step quick: 1 failed block, levels <= 2), block size 8 in the drivers', 'the two candidate findings of the design (check.c:439-452 old length vs new length; sync.c:1015 CHG hash overwritten early) were NOT replayed in this session and are neither claimed fixed nor listed as findings',
-                 'of state_check_process the per-disk data verification (failed-set construction), the outcome of repair(), the write-back step, the per-link loop and file_post ARE under obligation as extracted regions (bounded: <= 3 failed entries, one disk slot, 2 links); the code between them (opening / creating / truncating files in fix mode, directory and empty-file re-creation, the filters) is NOT'],
-    not_covered=['state_check_process: file open / create / truncate in fix mode, empty files and directories re-creation, filter evaluation', 'second strategy of repair() (parity not updated)', 'histories of syncs'])
+                 'of state_check_process the per-disk data verification (failed-set construction), the outcome of repair(), the write-back step, the per-link loop and file_post ARE under obligation as extracted regions (bounded: <= 3 failed entries, one disk slot, 2 links); the opening / creating / truncating of files in fix mode (check.open.region), the re-creation of empty files, directories and links are under obligation too; what connects the regions (loop structure, filter evaluation, progress / autosave) is NOT'],
+    not_covered=['state_check_process: what connects the extracted regions (loop structure, block_is_enabled filter, progress)', 'second strategy of repair() (parity not updated)', 'histories of syncs'])
 PROPS['C06'].update(
     explanation='The decisions that make "recorded as synced" imply "parity valid", each on the real cmdline/sync.c: block_is_enabled processes a stripe iff it holds a file block and (a block with invalid parity or a forced full rebuild); the completion region marks blocks BLK and releases deleted blocks ONLY when the stripe had no error, no I/O error and any silent error was fixed; exactly then, if some block had invalid parity, raid_gen recomputes parity from the buffers and the write is scheduled; a silent or I/O error always leaves the stripe marked bad; the time is refreshed only when parity was really updated and no silent error occurred. After an in-memory repair every non-BLK failed block gets back exactly the bytes read (so the new parity is the parity of what is recorded) and the stripe counts as fixed iff every repaired block hashes to its record. Block map: fs_deallocate replaces the extent containing the released position by extents that map exactly the other positions of the old one, each to the same file block (removed / shrunk at either end / split in two, never empty); fs_allocate extends an extent only when the new block is contiguous in parity AND in the file, else adds one one-block extent and never alters an existing mapping.',
     trusted_base=['fs_par2block_find / fs_deallocate / raid_gen / info_set by recording contracts (dfcc replace)', 'memhash by contract', 'region extraction of state_sync_process (3 regions)'],
@@ -1178,7 +1178,7 @@ PROPS['C12'].update(
     explanation='Only the per-call parts of the statement, each on the real code: (1) the command dispatch of main() (extracted with its OPERATION_* definitions, every state_* callee a recording stub that may leave the state marked as changed): status, diff, list, dup, check, dry and the device commands start nothing that writes data, parity or content (no state_sync / state_scrub / state_touch / state_rehash / state_pool / state_write, and state_check only with fix = 0); scrub may only scrub and save the content file; sync only sync and save; fix runs state_check with fix = 1 and never saves the content file; pool only state_pool; touch only state_touch and save; an audit-only check starts no import / search. (2) state_check: without the fix flag the parity is only ever opened with parity_open - never created, resized or truncated - and not at all with -a; the fix flag reaches state_check_process unchanged. (3) the write-back region of state_check_process and file_post: without the fix flag no data block, parity block, rename or time-stamp is issued; with it only for bad blocks of selected files (see C05). (4) handle_open (how sync, scrub, check and dry open DATA files) and parity_open (how check, scrub and dry open PARITY): every open() issued has access mode O_RDONLY and neither O_CREAT, O_TRUNC nor O_APPEND, through the real open_noatime and advise_flags.',
     trusted_base=['region extraction of main() and state_check; open_noatime (unix.c) and advise_flags (support.c) extracted', 'open / fstat / close / advise_open and every state_* callee by stub'],
     assumptions=['that the processing loops (state_sync_process, state_scrub_process, state_check_process without fix, state_status, state_list, state_dup, state_diffscan) issue no other mutating system call than through the functions above is NOT under an obligation - it is a statement over every call site of those loops (a syntactic fact: scrub.c, sync.c, dry.c reference no handle_create / handle_write / handle_truncate / unlink / rename; check.c only under `if (fix)`), not a contract', 'what fix writes is decided on the extracted regions of state_check_process (data verification, write-back, links, file_post) within small bounds; touch is decided on the whole of touch.c (one file); pool, the log and lock files are NOT under an obligation'],
-    not_covered=['state_check_process: file create / truncate in fix mode, directories and empty files', 'state_pool', 'log / lock file creation', 'the frame "nothing else changed" over the file system'])
+    not_covered=['state_check_process glue between the extracted regions', 'state_pool', 'log / lock file creation', 'the frame "nothing else changed" over the file system'])
 MANIFEST_TEXT['C12'] = dict(level_text='Narrow: which top-level operations each command may start, how check / fix choose between read-only and writable parity, and the open flags of the read-only open functions are per-call statements and are decided for all inputs; that the processing loops touch the file system only through those functions, and the whole-process frame, are not - level other.',
                             design_ref='DESIGN.md section 4', level_note='callees by stub; the frame over the file system and the call sites inside the processing loops are not decided', technique='CBMC drivers on mechanically extracted regions of real cmdline/snapraid.c and check.c and on real handle.c / parity.c open functions')
 PROPS['C19'] = dict(level='other', obligations=c19)
@@ -1201,7 +1201,7 @@ PROPS['C01'].update(
     explanation='Only the per-stripe recovery engine: C03 obligations (MDS minors up to order 3, raid_rec dispatch for every nd/np/failure list, raid_delta_gen, recovery through parity 0, raid_invert) + the decisions of fix (repair_step never returns success without a validated reconstruction and tries every combination of readable parities; blockcmp; is_hash_matching; CHG classification) + the block layout rule of a file. The statement itself is a history (sync ... damage ... fix ... check) and is NOT decided.',
     trusted_base=['see C03 and C05'],
     assumptions=['table-driven reconstruction loops not under obligation (cbmc defect, DESIGN 2.3)', 'everything outside the listed functions (failed-set construction, file_post, links/dirs re-creation, handle I/O, composition over stripes and files) is unverified'],
-    not_covered=['state_check_process glue between the extracted regions, directories and empty files', 'raid_rec1/2/X T[] loops', 'composition over stripes, files and histories'])
+    not_covered=['state_check_process glue between the extracted regions', 'raid_rec1/2/X T[] loops', 'composition over stripes, files and histories'])
 MANIFEST_TEXT.update({
     'C05': dict(level_text='The functions and regions of check.c that decide whether a reconstruction is accepted and whether a rebuilt block is trusted are decided for all inputs within small bounds; the 2000-line driver loop around them is not - level other.',
                 design_ref='DESIGN.md section 4', level_note='memhash / raid_* by contract; <= 3 failed blocks; state_check_process glue, write-back and file_post not covered', technique='CBMC code contracts (dfcc replace) + region extraction on real cmdline/check.c'),
